@@ -8,7 +8,6 @@ EXPLANATION = ('Value-flow normal forms of Categorical::new (probs_i = w_i / sum
                'distribution\'s own generator, cumulative scan in index order, a STRICT selection comparison r < cum (with the half-open '
                'variate r in [0,1) a closed comparison selects a zero-probability first category at r = 0), result is the scan index or len-1. '
                'Sample frequencies and the floating-point fallback case are not decided.')
-FLOORS = {'obligations': 13}   # counted on the reference tree; fewer instantiated obligations is reported, never passed silently
 TECHNIQUE = 'value-flow normal form + loop summary (exit condition, exit state) vs specification table'
 OBS = ['C16.new.norm', 'C16.logp', 'C16.target_fwd', 'C16.sample.variate', 'C16.sample.scan_order', 'C16.sample.strict',
        'C16.sample.result_is_index', 'C16.sample.fallback_in_range']
